@@ -8,7 +8,7 @@
    C04_refuted): the theorems are therefore the _partial form. *)
 From Coq Require Import ZArith List Bool.
 From BT Require Import Model.RTree Model.TreeSpec Model.Check Model.CheckTree
-                       Model.Persist Model.PersistSpec Proofs.PersistProofs.
+                       Model.Persist Model.PersistSpec Proofs.StoreProofs Proofs.PersistProofs.
 Import ListNotations.
 Open Scope Z_scope.
 
@@ -47,6 +47,12 @@ Theorem C04_commit_partial :
   no_embed_below V true (p_stored p) t ->
   synced V t p s -> mem (tid V t) (p_stored p) = true ->
   complete V t p seq s = true ->
+  (* three facts about a store kept by a data manager (each is necessary: see
+     StoreProofs.commit_needs_*; all three are re-established by every commit:
+     StoreProofs.commit_keeps): only objects with an oid have a record; an
+     unchanged record refers only to objects with an oid; the leaf embedded in
+     the root is not dumped on its own *)
+  no_stray V t (p_stored p) s -> refs_closed V t p -> dumps_ok V t (p_stored p) seq ->
   let '(p', s') := commit V t p seq s in
   current V t (p_stored p') s' /\ no_embed_below V true (p_stored p') t /\
   (forall i, In i (ids V t) -> mem i (p_stored p') = true \/
